@@ -299,7 +299,7 @@ BAD_TOKENS = [
 class C20(framework.PropertyCheck):
     pid = 'C20'
     quick_cases = 100
-    thorough_cases = 6000
+    thorough_cases = 2000
     rule = ('generated WAWK programs (BEGIN / END blocks, 1-3 statements with 1-3 conditions each; integer arithmetic, parenthesised comparisons, '
             'logical operators, assignment and compound assignment, if/else, for-in over a list, array set/get, print with string escapes) over a '
             'generated trace (6 indices): the program emitted by parse_wawk + AST.emit is evaluated by Wal and its stdout compared with a direct '
